@@ -135,9 +135,12 @@ def check_helpers(ctx, ck, cases, label='helper-with_repetition'):
         # (a plain string count makes the helper raise inside sympy: `ExpressionScalar * str`)
         helper_pt = inner.with_repetition(ExpressionScalar(case['helper'][1]))
         params = {k: v for k, v in case['params'].items() if k in helper_pt.parameter_names}
-        prog = helper_pt.create_program(parameters=dict(params))
-        win = sorted((name, F(float(b)), F(float(l))) for name, (bs, ls) in prog.get_measurement_windows().items()
-                     for b, l in zip(bs, ls)) if prog is not None else []
+        try:
+            prog = helper_pt.create_program(parameters=dict(params))
+            win = sorted((name, F(float(b)), F(float(l))) for name, (bs, ls) in prog.get_measurement_windows().items()
+                         for b, l in zip(bs, ls)) if prog is not None else []
+        except Exception as exc:  # noqa -- the generated declarations are well-formed: judged below against the spec
+            win = 'raises %s (%s)' % (core.classify_exception(exc), str(exc)[:120])
         case['params'] = params
         explicit_pt = ptgen.build(case['spec'])
         lines.append(ptgen.request_line(PID, explicit_pt, case, [], ['samples']))
@@ -149,7 +152,16 @@ def check_helpers(ctx, ck, cases, label='helper-with_repetition'):
         ctx.count('family:' + label)
         spec = reply['spec']
         want = spec['windows'] if spec['status'] == 'ok' else []
-        if win != want:
+        if isinstance(win, str):
+            if spec['status'] == 'error':
+                continue
+            ok = False
+            ctx.disagreements += 1
+            ctx.violation('RepetitionPT(..., measurements).with_repetition(%s).create_program %s; the explicit nesting it '
+                          'stands for declares the windows %s [params=%s]'
+                          % (case['helper'][1], win, ptcheck.fmt_w(want)[:6], case['params']),
+                          {'kind': 'helper', 'case': ptgen.case_json(case), 'helper': case['helper']})
+        elif win != want:
             ok = False
             ctx.disagreements += 1
             ctx.violation('RepetitionPT(..., measurements).with_repetition(%s) reports windows %s; the explicit nesting '
@@ -183,15 +195,15 @@ def run(ctx: core.Ctx):
     ctx.exhaustive_spaces.append('all nestings of depth <= 3 over two atoms, a measurement declared on every node: %d trees'
                                  % len(descs))
     base = ctx.fork('random').getrandbits(48)
-    descs += [ck.desc(family='random', seed=base + i, depth=depth, gen=GEN) for i in range(ctx.n(900, 30000))]
+    descs += [ck.desc(family='random', seed=base + i, depth=depth, gen=GEN) for i in range(ctx.n(700, 30000))]
     base = ctx.fork('empty').getrandbits(48)
     descs += [ck.desc(family='custom', make=empty_case, seed=base + i, label='empty-composites')
-              for i in range(ctx.n(150, 3000))]
+              for i in range(ctx.n(120, 3000))]
     base = ctx.fork('reuse').getrandbits(48)
     descs += [ck.desc(family='custom', make=reuse_case, seed=base + i, label='reused-mapping-dicts')
-              for i in range(ctx.n(120, 2500))]
+              for i in range(ctx.n(90, 2500))]
     base = ctx.fork('malformed').getrandbits(48)
-    descs += [ck.desc(family='malformed', seed=base + i) for i in range(ctx.n(150, 3000))]
+    descs += [ck.desc(family='malformed', seed=base + i) for i in range(ctx.n(100, 3000))]
     ck.run_batch(descs)
     hrng = ctx.fork('helpers')
     check_helpers(ctx, ck, [helper_case(hrng) for _ in range(ctx.n(40, 600))])
